@@ -25,11 +25,11 @@ ASSUMPTIONS = ["inputs are oriented manifold polygon complexes within the size b
                "the rotational direction of rings is pinned to the library's documented (clockwise) convention as observed on the pinned tree: p(f_{i+1}) = n(f_i)",
                "edge ids are taken from mesh.edges (construction is C02's subject)"]
 BOUNDS = {
-    "quick": "SURF triangles n<=5 all labelled (434), triangles+quads n=4 all labelled, n=5 (<=4 faces) one per isomorphism class, pentagon and triangle+pentagon complexes on 5 vertices, SURF(6) triangle isomorphism classes (28); face-listing deviations (rotated start vertex / swapped faces) <=2 on n=3, <=1 on n=4; ZOO; cache-state BFS to fixed point",
-    "thorough": "all labelled SURF: triangles n<=6 (13368), triangles+quads n=5 <=5 faces, pentagons; face-listing deviations <=2 on n<=4 and <=1 on n=5 triangles; larger ZOO",
+    "quick": "SURF triangles n<=5 all labelled (434), triangles+quads n=4 all labelled, n=5 (<=4 faces) one per isomorphism class, pentagon and triangle+pentagon complexes on 5 vertices, SURF(6) triangle isomorphism classes (28); face-listing deviations (rotated start vertex / swapped faces) <=2 on n=3, <=1 on n=4; ZOO; cache-state BFS to the fixed point on n<=4, over all histories of <= 3 events otherwise",
+    "thorough": "all labelled SURF: triangles n<=6 (13368), triangles+quads n=5 <=5 faces, pentagons; face-listing deviations <=2 on n<=4 and <=1 on n=5 triangles; larger ZOO; cache-state BFS to the fixed point except on the labelled 6-vertex family (histories of <= 3 events)",
 }
 
-BATCH = 40
+BATCH = 20
 
 
 # ------------------------------------------------------------------------------------------ inputs
@@ -111,15 +111,26 @@ def _inputs(tier):
 
 
 def tasks(tier):
+    """depth = bound on the number of events per explored history (None = run the cache-state BFS to its fixed
+    point). Quick: fixed point on n <= 4, histories of <= 3 events otherwise; thorough: fixed point everywhere
+    except the 12 934 labelled 6-vertex complexes (<= 3 events). Every accessor is evaluated in every state
+    reached, including the states at the bound."""
     ins = _inputs(tier)
     out = []
+
+    def depth_of(x):
+        if tier == "quick":
+            return None if x[1] <= 4 else 3
+        return 3 if x[0].startswith("tri6#") else None
     small = [x for x in ins if x[1] <= 6 and len(x[2]) <= 10]
     big = [x for x in ins if not (x[1] <= 6 and len(x[2]) <= 10)]
     for sort in (True, False):
-        for i in range(0, len(small), BATCH):
-            out.append({"sort": sort, "meshes": small[i:i + BATCH]})
+        for d in (None, 3):
+            grp = [x for x in small if depth_of(x) == d]
+            for i in range(0, len(grp), BATCH):
+                out.append({"sort": sort, "depth": d, "meshes": grp[i:i + BATCH]})
         for x in big:
-            out.append({"sort": sort, "meshes": [x]})
+            out.append({"sort": sort, "depth": depth_of(x), "meshes": [x]})
     return out
 
 
@@ -305,7 +316,7 @@ def _input_class(o, sort, warm):
     return f"arity{ar}:{'closed' if closed else 'bordered'}:sort={sort}:{'warm' if warm else 'fresh'}"
 
 
-def explore_mesh(M, name, n, faces, sort, rep: Report, events):
+def explore_mesh(M, name, n, faces, sort, rep: Report, events, depth=None):
     m0 = _build(M, n, faces)
     o = SurfOracle(faces, n, [tuple(e) for e in m0.edges])
     # sanity of the oracle's own premises (edge list = sides of faces); construction is C02's business
@@ -314,7 +325,7 @@ def explore_mesh(M, name, n, faces, sort, rep: Report, events):
         return
     resets = {"connectivity.clear": lambda m: m.connectivity.clear(), "clear_boundary_data": lambda m: m.clear_boundary_data()}
     seen = explore("C01", lambda: _build(M, n, faces), o, events, resets, _state_key, _content_key, rep,
-                   lambda warm: _input_class(o, sort, warm), {"mesh": name, "n": n, "faces": faces, "sort": sort})
+                   lambda warm: _input_class(o, sort, warm), {"mesh": name, "n": n, "faces": faces, "sort": sort}, max_depth=depth)
     sig = (n, tuple(map(tuple, faces)), sort)
     for k in seen:
         rep.case((sig, k))
@@ -339,7 +350,7 @@ def run_task(task, rep: Report):
         events = _events(bool(task["sort"]))
         for name, n, faces in task["meshes"]:
             faces = [tuple(f) for f in faces]
-            explore_mesh(M, name, n, faces, bool(task["sort"]), rep, events)
+            explore_mesh(M, name, n, faces, bool(task["sort"]), rep, events, task.get("depth"))
     finally:
         M.config.sort_neighborhoods = old
 
